@@ -96,7 +96,10 @@ def _index_terms(sym, out: Set) -> None:
         out.update(sym[2][:1])
     elif k == "idx":
         out.add(sym[1])
-    elif k in ("const", "param", "lenterm", "len", "opq"):
+    elif k == "opq":
+        # a numbered local of a loop body: its value at the iterations named by its tokens
+        out.update(STAR if t == "*" else ivar(t) for t in sym[3])
+    elif k in ("const", "param", "lenterm", "len"):
         return
     else:
         for a in sym[1:]:
@@ -122,20 +125,85 @@ def _signed(inc) -> Any:
     return s if inc["op"] == "Add" else ("neg", s) if inc["op"] == "Sub" else None
 
 
-def _run(prog, roles, probe: Probe, box=None, extra_setup=None):
+def _run(prog, roles, probe: Probe, box=None, extra_setup=None, custom_gamma=True):
     def setup(w):
         probe.setup(w)
         if extra_setup is not None:
             extra_setup(w)
 
-    return run_op(prog, roles, "rate", ranks="list-of-int", tau="any", limit_sigma="falsy", custom_gamma=True, setup=setup, box=box)
+    return run_op(prog, roles, "rate", ranks="list-of-int", tau="any", limit_sigma="falsy", custom_gamma=custom_gamma, setup=setup, box=box)
 
 
-def discover(prog, roles):
+def _canon_folds(s, depth: int = 0):
+    """Bound variables of folds renamed by nesting depth (their names carry the site of the reduction in the source)."""
+    from ..ai.values import subst_sym
+
+    if s is None or not isinstance(s, tuple) or not s:
+        return s
+    if s[0] == "fold":
+        new = f"$F{depth}"
+        body = _canon_folds(subst_sym(s[3], {s[2][1]: ivar(new)}), depth + 1)
+        return ("fold", s[1], ("const", new), body) + tuple(_canon_folds(a, depth) if isinstance(a, tuple) else a for a in s[4:])
+    if s[0] in ("in", "rd", "elem", "const", "param", "lenterm", "len", "idx", "opq"):
+        return s
+    return (s[0],) + tuple(_canon_folds(a, depth) if isinstance(a, tuple) else a for a in s[1:])
+
+
+def exchange_terms(prog, roles):
+    """The per-pair exchange of a pairwise kernel in a form that can be compared between models: for each assumed relation
+    between rank(q) and rank(i), the normal forms of what one pair adds to the accumulator behind the mu update and to the one
+    behind the sigma update (default gamma), with the updated team named $i and the other team $q.
+    Returns ({rel: {"omega": poly, "delta": poly}}, None) or (None, reason)."""
+    from ..ai.values import has_opq
+
+    p0 = Probe(prog)
+    oc = _run(prog, roles, p0, custom_gamma=False)
+    info, why = discover(prog, roles, (p0, oc))
+    if info is None:
+        return None, why
+    head_i = info["head_i"]
+    out: Dict[str, Dict[str, Any]] = {}
+    for rel in ("LT", "EQ", "GT"):
+        pr = Probe(prog, [(q, i, frozenset({rel})) for (q, i) in info["pairs"]])
+        ocr = _run(prog, roles, pr, custom_gamma=False)
+        if ocr.undecided or not ocr.returned:
+            return None, "; ".join(ocr.undecided[:3]) or "rate does not return"
+        out[rel] = {}
+        for kind, tags in (("omega", info["omega_tags"]), ("delta", info["delta_tags"])):
+            incs = {}
+            for i in pr.incs:
+                if i["tag"] in tags and i["op"] in ("Add", "Sub") and in_kernel(i["stack"]):
+                    incs[id(i["node"])] = i
+            total = ("const", 0)
+            for i in incs.values():
+                s = _signed(i)
+                if s is None or has_opq(s):
+                    return None, f"the {kind} increment `{norm_text(i['node'], 60)}` has no closed symbolic term under rank(q) {rel} rank(i)"
+                total = ("add", total, s)
+            hs: Set = set()
+            _heads(total, hs)
+            others = {h for h in hs if h != head_i}
+            if len(others) > 1:
+                return None, f"more than one other team in the {kind} term: {sorted(map(str, others))}"
+
+            def fn(t, head_i=head_i, others=others):
+                return ivar("$i") if t == head_i else ivar("$q") if t in others else None
+
+            p = to_poly(_canon_folds(map_sym_indices(total, fn)))
+            if p is None:
+                return None, f"the {kind} term has no normal form"
+            out[rel][kind] = p
+    return out, None
+
+
+def discover(prog, roles, have=None):
     """Discovery run: accumulator roles, the updated team's position, the kernel's rank comparisons.
     Returns (info dict, None) or (None, reason)."""
-    p0 = Probe(prog)
-    oc = _run(prog, roles, p0)
+    if have is not None:
+        p0, oc = have
+    else:
+        p0 = Probe(prog)
+        oc = _run(prog, roles, p0)
     if oc.undecided or not oc.returned:
         return None, "; ".join(oc.undecided[:3]) or "rate does not return"
     I = oc.I
